@@ -1,6 +1,6 @@
 # Per-property claims; exec'd by gen_manifest.py (claim(id, technique, text, note, design_ref)).
 PENDING = "check not built yet in this framework (DESIGN.md §8 build order); no verdict is claimed until its rule set runs clean both ways"
-for _p in ["C01","C02","C03","C04","C08","C14","C18","C19","C20"]:
+for _p in ["C01","C02","C03","C04","C14","C18","C19","C20"]:
     NOT_APPLICABLE[_p] = PENDING
 
 claim("C10",
@@ -68,3 +68,9 @@ claim("C11",
   "Decides the canonical-form skeleton of the mapping codec for all maps/inputs: the constructor path always sorts by decoded key with `<` before building; Data() writes len(payload) of the very payload it appends; sizes above 65,535 are rejected and the guarded value is the encoded one; nothing reachable from Data()/ReadMapping iterates a Go map or sorts (stored and wire order are kept, so output does not depend on map iteration order); the reader's stop threshold (extracted as a region on the remaining length) is not above the writer's smallest pair (4 bytes) and a non-empty shorter tail is reported. The threshold clause found and fixed the silently dropped short final pair. map→bytes→map identity as a value equality is not decided.",
   "Trusted: sort.SliceStable semantics; go/ssa. Anchors: data.ValuesToMapping, GoMapToMapping, (*Mapping).Data, ReadMapping, parseKeyValuePairs, serializeOnePair (the last two unexported; a rename makes the check fail loudly rather than pass).",
   "DESIGN.md §5 C11")
+
+claim("C08",
+  "summary-based, context- and field-sensitive may-alias (value-flow) analysis over SSA seeded at the parser's input parameter; same analysis seeded at the receiver for documented-copy accessors",
+  "For every exported parser of the structures the property names (22 entry points today) the analysis shows that no access path of the value returned on success can hold a reference into the caller's buffer, except the options/properties mappings the property exempts; for accessors documented as returning copies it shows the result is not the receiver's memory. The verdict is per path of the result and independent of the key type or input, which is exactly what the example tests cannot sweep. It found the Ed25519-family signing key and the fast-path padding aliasing (fixed in bf4918e).",
+  "Trusted: go/ssa; VTA targets for interface calls; bodies of third-party packages are analysed, standard-library calls follow a summary table (no-flow for formatting/encoding/hashing/logging, may-alias otherwise); no unsafe/reflect in the library (checked). The heap abstraction is flow-insensitive (may-alias), so a clean result is sound; a report names the result path.",
+  "DESIGN.md §5 C08")
